@@ -277,7 +277,19 @@ func c13Run(t *testing.T, o *vOut, ca *vCA, sc c13Script) {
 		held := ctl.holding > 0
 		ctl.mu.Unlock()
 		if !held {
-			o.Mon("C13 no-worker-reached-the-yield-point", sc.String())
+			// the scenario cannot be staged (no call reaches the yield point at which the worker is
+			// to be held): not a judgement about the code; counted and skipped
+			o.Stat("scripts_not_staged", 1)
+			o.Note("not_staged:"+sc.String(), "no call reached the yield point "+sc.hold)
+			close(ctl.gate)
+			synctest.Wait()
+			time.Sleep(30 * time.Minute)
+			synctest.Wait()
+			wg.Wait()
+			if len(hsMapsLeft()) > 0 {
+				hsClearMaps()
+			}
+			return
 		}
 		// ---- phase 2: arrivals while the worker is held
 		for i := 0; i < sc.d; i++ {
@@ -381,8 +393,7 @@ func c13Run(t *testing.T, o *vOut, ca *vCA, sc c13Script) {
 			}
 			// … and a wait that ends by its time-out must have begun while a worker was still there:
 			// a call whose last two minutes of waiting began after the worker's exit waited for nobody
-			if workerDone >= 0 && c.g != workerG && c.phase < 3 && strings.Contains(c.errStr, "timed out") &&
-				c.end-2*time.Minute >= workerDone {
+			if workerDone >= 0 && c.g != workerG && c.phase < 3 && c.end-2*time.Minute >= workerDone {
 				o.Mon("C13 call-waits-for-nobody-after-worker-exit", map[string]any{"script": sc.String(), "end": c.end.String(), "workerExit": workerDone.String(), "err": c.errStr})
 			}
 			if sc.kind == "renewWindow" && c.end != c.start {
